@@ -182,7 +182,10 @@ func mkString(b []value) value {
 // passed around and concatenated; any inspection of its content or length
 // ends the path as "unsupported" (reported as INCONCLUSIVE), so nothing is
 // ever concluded from a made-up rendering.
-type opaqueStr struct{ why string }
+type opaqueStr struct {
+	why      string
+	nonEmpty bool // known to contain at least one character
+}
 
 func opaqueAbort(o opaqueStr) {
 	panic(pathAbort{abUnsupported, "inspection of opaque text (" + o.why + ")"})
@@ -225,11 +228,26 @@ func isStr(v value) bool {
 }
 
 func strConcat(a, b value) value {
-	if o, ok := a.(opaqueStr); ok {
-		return o
-	}
-	if o, ok := b.(opaqueStr); ok {
-		return o
+	oa, aop := a.(opaqueStr)
+	ob, bop := b.(opaqueStr)
+	if aop || bop {
+		ne := func(v value, o opaqueStr, isOp bool) bool {
+			if isOp {
+				return o.nonEmpty
+			}
+			switch s := v.(type) {
+			case string:
+				return len(s) > 0
+			case symstr:
+				return len(s.b) > 0
+			}
+			return false
+		}
+		why := oa.why
+		if !aop {
+			why = ob.why
+		}
+		return opaqueStr{why: why, nonEmpty: ne(a, oa, aop) || ne(b, ob, bop)}
 	}
 	if as, ok := a.(string); ok {
 		if bs, ok := b.(string); ok {
@@ -262,6 +280,16 @@ func byteTerm(b value) *Term {
 
 // strEq builds a == b for strings at least one of which is symbolic.
 func strEq(a, b value) value {
+	if o, ok := a.(opaqueStr); ok && o.nonEmpty {
+		if s, ok := b.(string); ok && s == "" {
+			return false
+		}
+	}
+	if o, ok := b.(opaqueStr); ok && o.nonEmpty {
+		if s, ok := a.(string); ok && s == "" {
+			return false
+		}
+	}
 	ab, bb := strBytes(a), strBytes(b)
 	if len(ab) != len(bb) {
 		return false
